@@ -175,6 +175,16 @@ def generate(seed, mode):
                 ops.append({'op': 'probe', 'k': k})
                 continue
             if shape == 'chain' and o.random() < 0.1:
+                # the order of the bases of a registry that has several is reversed (nothing else changes), or the top-most
+                # registry above X gets other bases (a join below it has to follow), then the probe
+                if o.random() < 0.5:
+                    ops.append({'op': 'rbases', 'r': o.randrange(nR), 'bases': [], 'reorder': True, 'pick_multi': True, 'k': k})
+                else:
+                    ops.append({'op': 'rbases', 'r': o.randrange(nR), 'top_of': o.randrange(nR),
+                                'bases': [o.randrange(nR) for _ in range(o.choice([0, 1, 1, 2]))], 'k': k})
+                ops.append({'op': 'probe', 'k': k})
+                continue
+            if shape == 'chain' and o.random() < 0.1:
                 # changes in two different registries above X, alternating, with a lookup from X after each: whatever tells X's
                 # caches about changes above must tell the two origins apart
                 x = o.randrange(nR)
@@ -676,6 +686,7 @@ def execute(program, ctx, mode):
                         ctx.log('answer', kind, key['r'] % nR, [LK[x % len(LK)] for x in key['req']], key['p'] % (nP + 1), key['n'] % 3, a)
                     except Exception as ex:      # noqa
                         ctx.log('answer', ENTRIES[e], 'raise:' + type(ex).__name__)
+        c06_twin = twin() if 'C06' in props else None      # one replayed copy per probe (C06 is about the chain, not the caches)
         for ki, key in enumerate(keys):
             r = key['r'] % nR
             specs = key_specs(key)
@@ -685,7 +696,7 @@ def execute(program, ctx, mode):
                 prop = 'C06' if 'C06' in props else 'C04'
                 sources = [('warm', regs)]
                 if 'C06' in props:
-                    sources.append(('cold', twin()))
+                    sources.append(('cold', c06_twin))
                 for where, rs in sources:
                     acc = model_lookup(r, specs, p, nm)
                     # "... or the default if there is none": two different default objects in a row
@@ -723,10 +734,13 @@ def execute(program, ctx, mode):
                 salt = h64(k, ki, 'c05')
                 # one entry point per cache family (single-required cache / lookupAll cache / subscriptions cache),
                 # each on its own fresh twin; the choice rotates with the probe so all nine get covered
+                shared_twin = twin() if W.get('shape') in ('chain', 'specdyn') else None
                 for e in ((0, 1, 5, 6, 7)[salt % 5], (2, 3)[(salt >> 8) % 2], (4, 8)[(salt >> 12) % 2]):
                     da, db = Dflt(), Dflt()
                     kind, a = safe_ask(regs, key, e, default=da)
-                    kind2, b = safe_ask(twin(), key, e, default=db)
+                    # (the fault-placement parts use one fresh twin per key for the three cache families -- each family has a
+                    # cache of its own, so the twin is still cold for every question it is asked; the main part uses one per question)
+                    kind2, b = safe_ask(shared_twin if shared_twin is not None else twin(), key, e, default=db)
                     if a is da:
                         a = 'the-default-of-this-call'
                     if b is db:
@@ -1199,6 +1213,15 @@ def execute(program, ctx, mode):
                 opk = (s[1], s[2])
             elif name == 'rbases':
                 r = op['r'] % nR
+                if op.get('pick_multi'):
+                    multi = [x for x in range(nR) if alive[x] and len(rb[x]) >= 2]
+                    if multi:
+                        r = multi[op['r'] % len(multi)]
+                if op.get('top_of') is not None and alive[op['top_of'] % nR]:
+                    above = ro_of(op['top_of'] % nR)[1:]
+                    if above:
+                        r = above[-1]
+                        ctx.probe('rebase-the-top-most-ancestor')
                 if op.get('base_of') is not None and rb[op['base_of'] % nR]:
                     cand = rb[op['base_of'] % nR]
                     r = cand[op['r'] % len(cand)]
